@@ -203,6 +203,7 @@ def run : List String → Option String
     | some h =>
       let cs := (exitClasses h.body).toArray.qsort (· < ·) |>.toList
       let cs := if hasWithLikeL h.body then cs ++ ["withlike"] else cs
+      let cs := if propLoopVarL h.body then cs ++ ["proploop"] else cs
       some (if cs.isEmpty then "-" else ",".intercalate cs)
   -- const <x> -> x (expected value of an observable the spec fixes, e.g. the number of raw jump pseudo-statements: 0)
   | ["const", x] => some x
